@@ -2,6 +2,7 @@ SPECIFICATION Spec
 CONSTANTS
   MaxMods = 3
   MaxDecls = 1
+  ImportPositions = FALSE
   Dirs <- FlatDirs
 INVARIANTS VisibleOK NoLeak EmitCase
 CHECK_DEADLOCK FALSE
